@@ -93,6 +93,14 @@ META = {
         "note": "Exact equality of the deleted set is asserted for fault-free reconciles; with faults only 'never more than expected, never a live or foreign one'.",
         "technique": "property-based testing (rapid) against a reference model of history trimming",
     },
+    "C09": {
+        "text": "Fault enumeration on generated states: every API call position of the reconcile (sampled in the quick tier, all in the thorough tier) x eight "
+                "fault kinds incl. crash before/after the call, singly and in pairs, each executed through a real worker step and followed by recovery to "
+                "a fixed point that is compared with the unfaulted twin.",
+        "design_ref": "DESIGN.md section 3, C09",
+        "note": "Positions are complete per state in the thorough tier; states themselves are sampled. Interference kinds really change the API state first, so only responses a real API server could give are injected.",
+        "technique": "fault injection enumerated over API-call positions of generated states (rapid), differential against an unfaulted twin",
+    },
 }
 
 _pending = "check not built yet in this round of the build; planned per DESIGN.md section 3 (generated-input search applies)"
